@@ -26,6 +26,7 @@ func runC09(c *fw.Ctx) {
 	r91(c)
 	r92(c)
 	r93(c)
+	r94(c)
 }
 
 // genPkgExpr: expression denotes the generated package's *types.Package (X.Types with X a *Package, or a local alias of it).
@@ -518,4 +519,82 @@ func r93visitor(c *fw.Ctx, p *packages.Package, fd *ast.FuncDecl) {
 		return true
 	})
 	c.Check(marks, rule, "Visit/marks-used-once", fd.Pos(), "a referenced import must be marked used (and renamed at most once)")
+}
+
+// R9.4: usage marking at write time looks at every declaration of the file, every time. Declarations are
+// appended to the file when they are created and filled in later (a var/const/type block grows, a function
+// body arrives at End), so marking only a part of the list - declarations not seen by an earlier write,
+// a sub-slice, an early exit - leaves references without their import. In markUsed, the walk must range over
+// the whole declaration list and reach ast.Walk for every element.
+func r94(c *fw.Ctx) {
+	const rule = "R9.4"
+	fd, p := needDecl(c, rule, "markUsed")
+	if fd == nil {
+		return
+	}
+	info := p.TypesInfo
+	var loops []*ast.RangeStmt
+	ast.Inspect(fd.Body, func(n ast.Node) bool {
+		if rs, ok := n.(*ast.RangeStmt); ok {
+			walks := false
+			ast.Inspect(rs.Body, func(m ast.Node) bool {
+				if call, ok := m.(*ast.CallExpr); ok && isFunc(callee(info, call), "go/ast", "Walk") {
+					walks = true
+				}
+				return true
+			})
+			if walks {
+				loops = append(loops, rs)
+			}
+		}
+		return true
+	})
+	if len(loops) != 1 {
+		c.Undecided(rule, "markUsed/shape", fd.Pos(), "expected one loop that walks the file's declarations, found %d", len(loops))
+		return
+	}
+	rs := loops[0]
+	// the ranged expression is the declaration list itself
+	whole := false
+	if se, ok := unparen(rs.X).(*ast.SelectorExpr); ok {
+		if fv, ok := info.Uses[se.Sel].(*types.Var); ok && fv.IsField() {
+			if sl, ok := fv.Type().Underlying().(*types.Slice); ok && namedIs(sl.Elem(), "go/ast", "Decl") {
+				whole = true
+			}
+		}
+	}
+	c.Check(whole, rule, "markUsed/walks-whole-declaration-list", rs.Pos(),
+		"the usage walk ranges over `%s`; it must range over the file's complete declaration list (declarations are extended after they were first written: a partial walk drops imports)", exprString(rs.X))
+	// every element reaches ast.Walk: the call is a top-level statement of the body on the loop variable, with
+	// no continue/break/return before it
+	elem, _ := rs.Value.(*ast.Ident)
+	reached := false
+	for _, st := range rs.Body.List {
+		if es, ok := st.(*ast.ExprStmt); ok {
+			if call, ok := es.X.(*ast.CallExpr); ok && isFunc(callee(info, call), "go/ast", "Walk") && len(call.Args) == 2 {
+				if id, ok := unparen(call.Args[1]).(*ast.Ident); ok && elem != nil && info.Uses[id] == info.Defs[elem] {
+					reached = true
+				}
+			}
+			if reached {
+				break
+			}
+		}
+		// anything else before the walk that may skip it
+		skip := false
+		ast.Inspect(st, func(m ast.Node) bool {
+			switch x := m.(type) {
+			case *ast.BranchStmt:
+				skip = true
+			case *ast.ReturnStmt:
+				_ = x
+				skip = true
+			}
+			return true
+		})
+		if skip {
+			break
+		}
+	}
+	c.Check(reached, rule, "markUsed/every-declaration-walked", rs.Pos(), "every declaration of the list must be handed to ast.Walk (no skip before it)")
 }
